@@ -232,8 +232,14 @@ def _c06(R, tier, seed):
         gen.notations.append(gen.random_notation(2, f'g{i}'))
     terms, reqs = [], []
     for _ in range(n):
-        p = gen.term(rng.choice([1, 2, 3, 3, 4]), subst=0.2)
-        x = gen.var()
+        c = rng.random()
+        if c < 0.12:      # definition with a pending substitution on another variable than the queried one
+            p, x = G.subst_body_case(rng, gen)
+        elif c < 0.2:     # top-level Instantiate where x does not come in through an argument
+            p, x = G.open_body_case(rng, gen)
+        else:
+            p = gen.term(rng.choice([1, 2, 3, 3, 4]), subst=0.2)
+            x = gen.var()
         terms.append((p, x))
         reqs.append(('FR', f'{PC.show(p)} {x}'))
     impl = sides.impl(reqs)
@@ -284,7 +290,75 @@ def _c06(R, tier, seed):
                 R.violation(sig, f'Python evar_is_free({x}) answers {impl[j]} on a pattern whose expansion / concrete instances say otherwise',
                             dict(op='FR', args=reqs[j][1], implementation=impl[j],
                                  expansion=PC.show(G.ref_expand(p, drop)), expected='1' if G.ref_fresh(G.ref_expand(p, drop), x) else '0'))
-    return dict(evaluations=len(reqs), tie_mismatches=mismatches, oracle_failures=len(failing), config=cfg)
+    # ---- second judgement probe: the side condition of exists_generalization (BasicInterpreter and
+    #      StatefulInterpreter): accepting a generalisation over x IS judging x fresh in the consequent
+    greqs, gterms = [], []
+    for _ in range(n // 2):
+        c = rng.random()
+        l = gen.term(rng.choice([0, 1, 2]))
+        if c < 0.2:
+            r, x = G.subst_body_case(rng, gen)
+        elif c < 0.45:
+            r, x = G.open_body_case(rng, gen)
+        elif c < 0.7:     # x free / bound under notation layers
+            x = gen.var()
+            r = ('e', x) if rng.random() < 0.6 else ('x', x, ('i', ('e', x), gen.term(1)))
+            for _k in range(rng.randrange(0, 4)):
+                nt = rng.choice([t for t in gen.notations if t.arity >= 1])
+                a_ = [gen.term(1) for _j in range(nt.arity)]
+                a_[rng.randrange(nt.arity)] = r
+                r = nt(*a_)
+        else:
+            r, x = gen.term(rng.choice([1, 2, 3]), subst=0.2), gen.var()
+        conc = ('i', l, r) if rng.random() < 0.7 else G.partial_unfold(rng, ('i', l, r), 0.5, drop)
+        gterms.append((conc, x))
+        greqs.append((rng.choice(['GEN', 'GENS']), f'{PC.show(conc)} {x}'))
+    gimpl = sides.impl(greqs)
+    gmodel = sides.model(greqs, cfg)
+    mismatches += [dict(op=r[0], args=r[1], model=m, impl=i) for r, m, i in zip(greqs, gmodel, gimpl) if m != i]
+    gcases = [PS.make_case(*r) for r in greqs]
+
+    def gjudge(j, ans, dr):
+        """accept/refuse must be the documented rule on the expansion; an accepted generalisation must be sound on
+        sampled constraint-respecting concrete instances of the consequent"""
+        c = gcases[j]
+        try:
+            if c.post(ans, dr) != c.spec(dr):
+                return False
+        except PS.BadAnswer:
+            return False
+        if ans != 'RAISE':
+            conc, x = gterms[j]
+            e = G.ref_expand(conc, dr)
+            r2 = C.rng_for(seed, f'C06:gsigma:{j}')
+            for _ in range(nsig):
+                try:
+                    cinst = concrete_inst(e[2], random_sigma(r2, e[2]))
+                except Capture:
+                    continue
+                if x in G.fv_e(cinst):
+                    return False
+        return True
+    gfail = []
+    for j, ans in enumerate(gimpl):
+        R.case(greqs[j], True, 'py-generalization:' + ('refused' if ans == 'RAISE' else 'accepted'))
+        if not gjudge(j, ans, drop):
+            gfail.append(j)
+    if gfail:
+        labels = _classify(sides, cfg, [greqs[j] for j in gfail], lambda k, a, dr: gjudge(gfail[k], a, dr))
+        seen = set()
+        for j, fl in zip(gfail, labels):
+            sig = _sig('C06', 'exists_generalization', fl)
+            R.hist['py-fail:' + sig] = R.hist.get('py-fail:' + sig, 0) + 1
+            if sig not in seen:
+                seen.add(sig)
+                conc, x = gterms[j]
+                R.violation(sig, f'exists_generalization over x{x} answers {gimpl[j][:60]!r}: the side condition judges x{x} '
+                                 'fresh in a consequent whose expansion / concrete instances say otherwise (or refuses a fresh one)',
+                            dict(op=greqs[j][0], args=greqs[j][1], implementation=gimpl[j],
+                                 expected=repr(gcases[j].spec(drop))[:1000]))
+    return dict(evaluations=len(reqs) + len(greqs), tie_mismatches=mismatches,
+                oracle_failures=len(failing) + len(gfail), config=cfg)
 
 
 # ------------------------------------------------------------------------------------------------
